@@ -7,7 +7,7 @@ Simulated: the file (SimStream with truncation / substitution overlay and accoun
 import os
 import traceback
 
-from ..core import env, runner, elfraw
+from ..core import env, runner, elfraw, elfbuild
 from ..core.prng import substream, run_seed, digest as pdigest, h64
 from ..core.simdisk import SimStream, SimBudgetExceeded
 from ..core.ddmin import ddmin
@@ -122,14 +122,23 @@ def _hdr2_pairs(raw):
     return pairs
 
 
+def _synth_bytes(name):
+    return elfbuild.build_dynamic(substream(int(name.split(':', 1)[1]), 'image'))[0]
+
+
 def prepare(prop, tier, seed, only=None):
     files = _seed_files()
     raws = {}
     for f in files:
         raws[f] = elfraw.Raw(env.corpus_bytes(f))
+    # small synthetic dynamically linked images (own writer): every table kind in 1-2 KiB, both classes and byte orders
+    for k in range(6 if tier == 'quick' else 40):
+        nm = 'synthdyn:%d' % h64(seed, 'C19-synth', k)
+        raws[nm] = elfraw.Raw(_synth_bytes(nm))
+        files.append(nm)
     r = substream(h64(seed, 'C19', tier), 'plan')
     if tier == 'quick':
-        enum_files = sorted(r.sample(files, max(8, len(files) // 3)))
+        enum_files = sorted(set(r.sample(files, max(8, len(files) // 3)) + [f for f in files if f.startswith('synthdyn:')][:3]))
         n_field, n_bytes = 14000, 4000
     else:
         enum_files = files
@@ -261,6 +270,8 @@ def _image_bytes(spec):
     raws = _STATE.get('raws')
     if raws and img in raws:
         return raws[img].data
+    if img.startswith('synthdyn:'):
+        return _synth_bytes(img)
     return env.corpus_bytes(img)
 
 
